@@ -148,6 +148,13 @@ func init() {
 		sb.WriteString(" and nothing else is covered by this agreement at all")
 		synthetic["syn-z-refrain.txt"] = sb.String()
 	}
+	// file NAMES at and around what a classic tar header holds (100 bytes; the .hash entry of a
+	// license is one byte longer than its text entry), far beyond it, and outside ASCII
+	for _, n := range []int{99, 100, 101, 155, 156, 260} {
+		synthetic["syn-n"+fmt.Sprint(n)+"-"+strings.Repeat("x", n-4-len("syn-n"+fmt.Sprint(n)+"-"))+".txt"] = body + fmt.Sprintf(" name%d", n)
+	}
+	synthetic["syn-Licen\u00e7a-P\u00fablica-1.0.txt"] = body + " publica"
+	synthetic["syn-with space.txt"] = body + " spaced"
 	synthetic["syn-z-crlf.txt"] = strings.ReplaceAll(strings.ReplaceAll(body, " that ", "\r\nthat "), " are ", "\r\nare ") + "\r\n"
 	// many small licenses (more than any batch or table size one would pick for 178 files)
 	for i := 0; i < 520; i++ {
@@ -674,9 +681,23 @@ func c16Corpus(c *vrep.Ctx) {
 		panic("c16 needs the v1 instrumentation profile")
 	}
 	files := licenseFiles()
-	nv := c.Pick(7, len(variants))
+	nv := c.ParamInt("variants", c.Pick(7, len(variants)))
 	l := fullLicense()
-	c.R.Rule = fmt.Sprintf("every one of the %d shipped license files x %d presentation variants (identity, upper, // decoration, whole text re-flowed onto one line, REM decoration, box comment padded to a right-hand border, 24 blanks + // ; thorough adds lower, one word per line, # and * decoration, dnl decoration) against the License classifier built from the full archive: NearestMatch must return the file's canonical name (file name minus .txt and .header) with confidence >= %v; finite and complete", len(files), nv, lc.DefaultConfidenceThreshold)
+	// job parameter t=<threshold>: the classifier is CONSTRUCTED with another threshold; what
+	// NearestMatch names, and with which confidence, does not depend on it
+	built := lc.DefaultConfidenceThreshold
+	if ts := c.Param("t", ""); ts != "" {
+		fmt.Sscan(ts, &built)
+		var buf bytes.Buffer
+		if err := serializer.ArchiveLicenses(licenseFiles(), &buf); err != nil {
+			panic(err)
+		}
+		var err error
+		if l, err = lc.New(built, lc.ArchiveBytes(buf.Bytes())); err != nil {
+			panic(err)
+		}
+	}
+	c.R.Rule = fmt.Sprintf("every one of the %d shipped license files x %d presentation variants (identity, upper, // decoration, whole text re-flowed onto one line, REM decoration, box comment padded to a right-hand border, 24 blanks + // ; thorough adds lower, one word per line, # and * decoration, dnl decoration) against the License classifier built from the full archive with threshold %v: NearestMatch must return the file's canonical name (file name minus .txt and .header) with confidence >= %v; finite and complete", len(files), nv, built, lc.DefaultConfidenceThreshold)
 	c.Bound("files", len(files))
 	c.Bound("variants", nv)
 	// v1 compares character by character against every known text of similar length; with the
